@@ -149,10 +149,15 @@ def _worker(shard):
     t0 = time.time()
     acc = Acc()
     try:
-        _MOD.run_shard(shard, acc)
+        try:
+            with budget(SHARD_BUDGET_S):
+                _MOD.run_shard(shard, acc)
+        except BudgetExceeded:
+            # the exploration of this shard did not finish: some execution (implementation or harness) does not
+            # terminate within the budget. Reported as a violation of the property (no result was produced).
+            acc.violation("runner", "shard-timeout", {"shard": list(shard) if isinstance(shard, tuple) else shard},
+                          expected="shard explored within %d s of CPU time" % SHARD_BUDGET_S, observed="CPU budget exceeded")
         minimise_all(_MOD, acc)
-    except BudgetExceeded:
-        return dict(error="shard %r exceeded its CPU budget outside a guarded case" % (shard,))
     except Exception:  # harness problem, not a verdict
         return dict(error="shard %r: %s" % (shard, traceback.format_exc()))
     out = acc.export()
@@ -182,6 +187,15 @@ def _same_failure(v, ref):
 def check_one(mod, sub, case):
     """Run implementation + model on one case; return a violation dict or None."""
     acc = Acc()
+    if sub == "runner":
+        shard = case["shard"]
+        shard = tuple(tuple(x) if isinstance(x, list) else x for x in shard) if isinstance(shard, list) else shard
+        try:
+            with budget(SHARD_BUDGET_S):
+                mod.run_shard(shard, Acc())
+        except BudgetExceeded:
+            acc.violation("runner", "shard-timeout", case, expected="terminates", observed="CPU budget exceeded")
+        return acc.viol[0] if acc.viol else None
     mod.check_case(sub, case, acc)
     return acc.viol[0] if acc.viol else None
 
@@ -193,7 +207,8 @@ def minimise(mod, v, max_steps=400):
         return v
     steps = 0
     progress = True
-    while progress and steps < max_steps:
+    t_stop = time.time() + 3.0  # per-witness wall budget
+    while progress and steps < max_steps and time.time() < t_stop:
         progress = False
         for cand in shrink(v["sub"], v["case"]):
             steps += 1
@@ -212,11 +227,16 @@ def minimise(mod, v, max_steps=400):
     return v
 
 
+SHARD_BUDGET_S = 900  # CPU seconds per shard (typical shards need 1-60 s)
+MINIMISE_BUDGET_S = 12.0  # wall-clock budget for shrinking per shard; afterwards witnesses are kept as found
+
+
 def minimise_all(mod, acc):
     seen = {}
     out = []
+    t_end = time.time() + MINIMISE_BUDGET_S
     for v in acc.viol:
-        m = minimise(mod, v)
+        m = minimise(mod, v, max_steps=400 if time.time() < t_end else 0)
         sig = signature(mod, m)
         m["signature"] = sig
         if sig not in seen:
@@ -410,6 +430,7 @@ def run(prop, tier, seed):
         viols.extend(r["viol"])
         for k, val in r["info"].items():
             info.setdefault(k, val)
+    info["slowest_shards"] = [[repr(r["shard"])[:80], round(r["wall"], 1)] for r in sorted(results, key=lambda r: -r["wall"])[:5]]
     # 4. vacuity guard
     req = getattr(mod, "REQUIRE", {})
     if callable(req):
